@@ -26,6 +26,11 @@ func ladder(arg string) (code int) {
 			code = 1
 		}
 	}()
+	kind := 0
+	if k := strings.IndexByte(arg, ':'); k >= 0 {
+		kind, _ = strconv.Atoi(arg[k+1:])
+		arg = arg[:k]
+	}
 	n, err := strconv.Atoi(arg)
 	if err != nil {
 		return 2
@@ -35,16 +40,46 @@ func ladder(arg string) (code int) {
 		return 2
 	}
 	h := x
-	for i := 0; i < n; i++ {
-		a, err := h.Add(h)
-		if err != nil {
-			fmt.Println("LADDER-ERROR", err)
-			return 1
+	var ferr error
+	must := func(t tensor.Tensor, err error) tensor.Tensor {
+		if err != nil && ferr == nil {
+			ferr = err
 		}
-		if h, err = a.Sub(h); err != nil {
-			fmt.Println("LADDER-ERROR", err)
-			return 1
+		return t
+	}
+	for i := 0; i < n && ferr == nil; i++ {
+		switch kind {
+		case 0: // (h + h) - h: paths of different lengths reconverge
+			a := must(h.Add(h))
+			if ferr == nil {
+				h = must(a.Sub(h))
+			}
+		case 1: // (h + h) * 0.5: one consumer takes the same tensor twice
+			a := must(h.Add(h))
+			if ferr == nil {
+				h = a.Scale(0.5)
+			}
+		case 2: // h*0.5 + h*0.5: a diamond whose two paths have the same length
+			a, b := h.Scale(0.5), h.Scale(0.5)
+			if ferr == nil {
+				h = must(a.Add(b))
+			}
+		default: // (h*0.25 + h*0.25) + (h*0.25 + h*0.25): four equally long paths per stage
+			q := make([]tensor.Tensor, 4)
+			for j := range q {
+				q[j] = h.Scale(0.25)
+			}
+			if ferr == nil {
+				l, r := must(q[0].Add(q[1])), must(q[2].Add(q[3]))
+				if ferr == nil {
+					h = must(l.Add(r))
+				}
+			}
 		}
+	}
+	if ferr != nil {
+		fmt.Println("LADDER-ERROR", ferr)
+		return 1
 	}
 	start := time.Now()
 	if err := tensor.BackPropagate(h); err != nil {
@@ -136,15 +171,20 @@ func manyBPCheck(c *run.Ctx, n int) error {
 
 // ladderCheck: a deep graph with exponentially many paths must back-propagate in time linear in its size, applying
 // every edge exactly once (validated structurally by TLC) and leaving the exact derivative.
-func ladderCheck(c *run.Ctx, depth int) error {
+// ladderKinds: the stage shapes of the ladder (see ladder); every stage has derivative exactly 1.
+var ladderKinds = []string{"(h+h)-h", "(h+h)*0.5", "h*0.5+h*0.5", "(h/4+h/4)+(h/4+h/4)"}
+
+// ladderCheck: kind selects the stage shape; terminationOnly: only "returns, without an error, within the limit" is
+// judged (C09) - the gradient and the recorded traversal are C01's business.
+func ladderCheck(c *run.Ctx, depth, kind int, terminationOnly bool) error {
 	self, err := os.Executable()
 	if err != nil {
 		return run.Brokenf("%v", err)
 	}
-	dir := filepath.Join(c.Work, "ladder")
+	dir := filepath.Join(c.Work, fmt.Sprintf("ladder%d", kind))
 	os.MkdirAll(dir, 0o755)
 	runOne := func(n int, limit time.Duration) (string, bool) {
-		cmd := exec.Command("timeout", fmt.Sprint(int(limit.Seconds())), self, "ladder", fmt.Sprint(n))
+		cmd := exec.Command("timeout", fmt.Sprint(int(limit.Seconds())), self, "ladder", fmt.Sprintf("%d:%d", n, kind))
 		cmd.Env = append(os.Environ(), "QEEP_VERIF_TRACE="+dir)
 		out, err := cmd.CombinedOutput()
 		if err != nil {
@@ -158,21 +198,25 @@ func ladderCheck(c *run.Ctx, depth int) error {
 	if timedOut {
 		// confirm on a depth where even an exponential walk terminates, and exhibit the over-count
 		small, to2 := runOne(14, 120*time.Second)
-		c.Violate(fmt.Sprintf("back-propagating a ladder of %d reconvergent stages did not finish within 60 s (a 14-stage ladder: %s timed out=%v)", depth, strings.TrimSpace(small), to2),
-			map[string]any{"ladder_depth": depth})
+		c.Violate(fmt.Sprintf("back-propagating a ladder of %d reconvergent stages h <- %s did not finish within 60 s (a 14-stage ladder: %s timed out=%v)", depth, ladderKinds[kind], strings.TrimSpace(small), to2),
+			map[string]any{"ladder_depth": depth, "ladder_kind": kind})
 		return nil
 	}
 	if strings.Contains(out, "LADDER-ERROR") {
 		if again, _ := runOne(depth, 60*time.Second); strings.Contains(again, "LADDER-ERROR") {
-			c.Violate(fmt.Sprintf("back-propagating a ladder of %d reconvergent stages over one tracked leaf fails: %s", depth, strings.TrimSpace(out)), map[string]any{"ladder_depth": depth, "output": out})
+			c.Violate(fmt.Sprintf("back-propagating a ladder of %d reconvergent stages h <- %s over one tracked leaf fails: %s", depth, ladderKinds[kind], strings.TrimSpace(out)), map[string]any{"ladder_depth": depth, "ladder_kind": kind, "output": out})
 			return nil
 		}
 	}
 	if !strings.Contains(out, "LADDER depth=") {
 		return run.Brokenf("ladder subprocess failed: %s", out)
 	}
+	if terminationOnly {
+		c.Count(fmt.Sprintf("ladder-%d-kind-%d", depth, kind), true)
+		return nil
+	}
 	if !strings.Contains(out, "grad=[1 1]") {
-		c.Violate(fmt.Sprintf("ladder of %d stages: the leaf's gradient must be exactly [1 1]: %s", depth, strings.TrimSpace(out)), map[string]any{"ladder_depth": depth, "output": out})
+		c.Violate(fmt.Sprintf("ladder of %d stages h <- %s: the leaf's gradient must be exactly [1 1]: %s", depth, ladderKinds[kind], strings.TrimSpace(out)), map[string]any{"ladder_depth": depth, "ladder_kind": kind, "output": out})
 		return nil
 	}
 	files, _ := filepath.Glob(filepath.Join(dir, "*.ndjson"))
@@ -184,16 +228,43 @@ func ladderCheck(c *run.Ctx, depth int) error {
 		return err
 	}
 	if strings.Contains(res.Out, "TRACE-REJECTED-AT") {
-		c.Violate(fmt.Sprintf("the back-propagation of the %d-stage ladder is not a behaviour of the specification (an edge applied twice, too early, or missing): %s", depth, run.Tail(res.Out, 3)),
-			map[string]any{"ladder_depth": depth})
+		c.Violate(fmt.Sprintf("the back-propagation of the %d-stage ladder h <- %s is not a behaviour of the specification (an edge applied twice, too early, or missing): %s", depth, ladderKinds[kind], run.Tail(res.Out, 3)),
+			map[string]any{"ladder_depth": depth, "ladder_kind": kind})
 		return nil
 	}
 	if res.ExitCode != 0 || strings.Contains(res.Out, "Error:") {
 		return run.Brokenf("TLC failed on the ladder trace:\n%s", run.Tail(res.Out, 20))
 	}
 	b, _ := os.ReadFile(files[0])
-	c.AddExtra("ladder", fmt.Sprintf("%d reconvergent stages (3^%d paths): %s; %d edge applications validated by TLC (each edge exactly once, consumers complete)", depth, depth, strings.TrimSpace(out), strings.Count(string(b), "\"ev\":\"edge\"")))
+	c.AddExtra(fmt.Sprintf("ladder_kind_%d", kind), fmt.Sprintf("%d reconvergent stages h <- %s (exponentially many paths): %s; %d edge applications validated by TLC (each edge exactly once, consumers complete)", depth, ladderKinds[kind], strings.TrimSpace(out), strings.Count(string(b), "\"ev\":\"edge\"")))
 	c.Traces++
-	c.Count(fmt.Sprintf("ladder-%d", depth), true)
+	c.Count(fmt.Sprintf("ladder-%d-kind-%d", depth, kind), true)
 	return nil
+}
+
+// replayLadder re-runs a ladder witness: the back-propagation must return without an error within the limit and (for
+// C01) leave the gradient [1 1] on the leaf.
+func replayLadder(id, path string, depth, kind int) int {
+	self, err := os.Executable()
+	if err != nil || kind < 0 || kind >= len(ladderKinds) {
+		return 2
+	}
+	out, err := exec.Command("timeout", "60", self, "ladder", fmt.Sprintf("%d:%d", depth, kind)).CombinedOutput()
+	what := ""
+	if ee, ok := err.(*exec.ExitError); ok && ee.ExitCode() == 124 {
+		what = "did not finish within 60 s"
+	} else if strings.Contains(string(out), "LADDER-ERROR") {
+		what = "fails: " + strings.TrimSpace(string(out))
+	} else if !strings.Contains(string(out), "LADDER depth=") {
+		fmt.Fprintf(os.Stderr, "ladder subprocess failed: %s\n", out)
+		return 2
+	} else if id != "C09" && !strings.Contains(string(out), "grad=[1 1]") {
+		what = "leaves a gradient other than [1 1] on the leaf: " + strings.TrimSpace(string(out))
+	}
+	if what != "" {
+		fmt.Printf("VIOLATION property=%s replay=%s\n  back-propagating a ladder of %d stages h <- %s %s\n", id, path, depth, ladderKinds[kind], what)
+		return 1
+	}
+	fmt.Printf("%s: witness %s no longer fails\n", id, path)
+	return 0
 }
